@@ -660,6 +660,13 @@ func addResources(rng *rand.Rand, st *ref.SelState) {
 	st.Volumes = []string{"v1", "v2"}
 	st.Secrets = []string{"s1", "s2", "s3"}
 	st.Configs = []string{"c1", "c2"}
+	if rng.Intn(2) == 0 {
+		// the four kinds are separate namespaces: the same names in each of them (and a service's name)
+		st.Networks = []string{"a", "r1", "r2"}
+		st.Volumes = []string{"r1", "r2"}
+		st.Secrets = []string{"a", "r1", "r2"}
+		st.Configs = []string{"r1", "r2"}
+	}
 	sub := func(l []string, p float64) []string {
 		var out []string
 		for _, x := range l {
